@@ -30,13 +30,27 @@ import (
 
 type c05spy struct {
 	*suppapitnarm.Explorer
-	seed   int64
-	run    *c05run
-	obs    []c05obs
-	broken string
+	seed    int64
+	run     *c05run
+	obs     []c05obs
+	attempt int // verdict of the attempt announced in this iteration, -1 = none seen
 }
 
 func (s *c05spy) DeepClone() explorer.Explorer { return s }
+
+// ObserveEvent: the explorer announces the verdict of AttemptToArchiveState (event carrying "ChangeDesirable") before
+// it decides whether to force; this is how the attempt's own result is observed when a forced store follows.
+func (s *c05spy) ObserveEvent(e observer.Event) {
+	if e.Attribute("ChangeDesirable") == nil {
+		return
+	}
+	text, _ := e.Attribute("ArchiveStorageResult").(string)
+	for code := uint(0); code <= 5; code++ {
+		if marchive.StorageResult(code).String() == text && code != 4 {
+			s.attempt = int(code)
+		}
+	}
+}
 
 func (s *c05spy) Initialise() {
 	s.Explorer.Initialise()
@@ -66,6 +80,7 @@ func c05candOfState(st *marchive.CompressedModelState) c05cand {
 func (s *c05spy) TryRandomChange() {
 	arch := s.Explorer.VerifC05Archive()
 	before := append([]*marchive.CompressedModelState{}, arch.Archive()...)
+	s.attempt = -1
 	s.Explorer.TryRandomChange()
 	after := append([]*marchive.CompressedModelState{}, arch.Archive()...)
 	_, potential := s.Explorer.VerifC05Models()
@@ -75,10 +90,29 @@ func (s *c05spy) TryRandomChange() {
 	results := []uint{uint(last)}
 	var mid []*marchive.CompressedModelState
 	if last == marchive.StoredForcingDominatingStateRemoval {
-		// AcceptUndesirableChange: the attempt was refused as dominated (archive unchanged), then forced
-		o.kind = c05OfferForce
-		results = []uint{uint(marchive.RejectedWithStoredEntryDominanceDetected), uint(last)}
-		mid = before
+		// AcceptUndesirableChange: the attempt was refused (archive unchanged), then the candidate was forced
+		first := uint(marchive.RejectedWithStoredEntryDominanceDetected)
+		if s.attempt >= 0 {
+			first = uint(s.attempt)
+		}
+		if first == uint(marchive.RejectedWithStoredEntryDominanceDetected) {
+			o.kind = c05OfferForce
+			results = []uint{first, uint(last)}
+			mid = before
+		} else {
+			// a forced store that does not follow a "rejected, dominated" verdict is outside the explorer's language
+			s.run.fail("the explorer forced a candidate that the archive had not refused as dominated",
+				func() J {
+					return J{"attempt_result": first, "candidate": J{"vec": cand.vec, "acts": c05bitsString(cand.bits)}}
+				})
+			s.obs = append(s.obs, s.run.record(c05op{kind: c05Offer, cand: cand}, false, []uint{first}, before, nil, before))
+			o.kind = c05ForceRaw
+			results = []uint{uint(last)}
+			before2 := before
+			s.obs = append(s.obs, s.run.record(o, false, results, before2, nil, after))
+			c05stats["live_iterations"]++
+			return
+		}
 	} else if last == marchive.RejectedWithStoredEntryDominanceDetected {
 		c05stats["live_dominated_not_forced"]++
 	}
@@ -114,7 +148,8 @@ func c05liveRun(name, dataPath string, averagedCoolant bool, iterations int, see
 	} else {
 		ex = suppapitnarm.New().WithCoolant(coolsupp.NewCoolant())
 	}
-	spy := &c05spy{Explorer: ex, seed: seed, run: c05newRun("live_" + name)}
+	spy := &c05spy{Explorer: ex, seed: seed, run: c05newRun("live_" + name), attempt: -1}
+	ex.AddObserver(spy)
 	an := new(annealers.SimpleAnnealer)
 	an.Initialise()
 	an.SetSolutionExplorer(spy)
